@@ -6,6 +6,9 @@ import (
 	"encoding/hex"
 	"encoding/json"
 	"fmt"
+	"github.com/brutella/hc/db"
+	"os"
+	"path/filepath"
 	"strconv"
 	"strings"
 	"time"
@@ -383,6 +386,11 @@ func (r *c03Run) step(ev string) bool {
 		// a "finish" that carries nothing but an error item, as if the controller aborted
 		isFinish = true
 		m, err = post(refctl.TLVEncode(refctl.T(refctl.TagState, []byte{3}), refctl.T(refctl.TagError, []byte{2})))
+	case "finish-naming-path-into-neighbour-store":
+		// the name X presents is a path: it leads from this accessory's store to the entity file X has in the store of
+		// the accessory next door. Names are names, not paths: unknown here, refused.
+		isFinish = true
+		m, err = post(refctl.VerifyM3Sealed(ctxv.EncKey, ctxv.M3Sub("../nb-"+filepath.Base(r.b.Dir)+"/"+hex.EncodeToString([]byte(idX.ID)), idX.Priv)))
 	case "finish-unknown-name":
 		isFinish = true
 		m, err = post(refctl.VerifyM3Sealed(ctxv.EncKey, ctxv.M3Sub("nobody", idX.Priv)))
@@ -578,6 +586,14 @@ func c03ExecFrom(c *fw.Ctx, prefix string, hist []string) (ok bool) {
 	c.Transition(len(hist))
 	world.ResetCapture()
 	b, err := newBed(c, bedOpt{Seed: []refctl.Identity{idL, idKeyless, idShortKey, idAdmin}})
+	if err == nil {
+		// another accessory's store next to this one (one working directory, two accessories): X is paired THERE
+		nb := filepath.Join(filepath.Dir(b.Dir), "nb-"+filepath.Base(b.Dir))
+		if ndb, derr := db.NewDatabase(nb); derr == nil {
+			ndb.SaveEntity(db.NewEntity(idX.ID, idX.Pub, nil))
+			defer os.RemoveAll(nb)
+		}
+	}
 	if err != nil {
 		c.Infra("bed: " + err.Error())
 		return false
@@ -674,7 +690,7 @@ func c03Run1(c *fw.Ctx) {
 		n = 16 // quick: the first 16 symbols (simplest first) …
 	}
 	// … plus the two degenerate-entity symbols
-	alpha := append(append([]string{}, c03Alphabet[:n]...), "X:finish-naming-keyless-entity", "X:finish-naming-shortkey-entity", "L:finish-genuine-begin", "L:finish-genuine-end", "L:finish-signed-by-L-naming-case-variant", "X:finish-reflecting-accessory-signature", "X:start-with-accessory-key", "X:finish-echoing-start-response", "L:finish-genuine-plus-cut-off-item", "L:finish-genuine-then-pipelined-failed-verify", "L:finish-len15", "X:finish-signed-by-X-naming-L-with-own-key-item", "X:finish-with-error-item")
+	alpha := append(append([]string{}, c03Alphabet[:n]...), "X:finish-naming-keyless-entity", "X:finish-naming-shortkey-entity", "L:finish-genuine-begin", "L:finish-genuine-end", "L:finish-signed-by-L-naming-case-variant", "X:finish-reflecting-accessory-signature", "X:start-with-accessory-key", "X:finish-echoing-start-response", "L:finish-genuine-plus-cut-off-item", "L:finish-genuine-then-pipelined-failed-verify", "L:finish-len15", "X:finish-signed-by-X-naming-L-with-own-key-item", "X:finish-with-error-item", "X:finish-naming-path-into-neighbour-store")
 	if c.Thorough() {
 		// thorough: the quick alphabet to depth 4, and the full alphabet to depth 3
 		full := c03Alphabet
@@ -731,7 +747,7 @@ func init() {
 	fw.Register(&fw.Check{
 		ID:    "C03",
 		Level: "model_checking",
-		Rule:  "every history of length ≤3 (quick) / ≤4 (thorough) over 29 symbols, in thorough also every history of length ≤3 over all 38 symbols, of the pair-verify alphabet on an adversary connection X and a legitimate connection L (start valid / 31 / 33 / 0-byte key / all-zero point; finish genuine, signed by X naming L, unknown name, naming the accessory, sealed under zero / wrong key, 0 and 15 byte payloads, tag flipped, L's captured finish replayed, L's signature over reordered or stale material, naming a stored entity that has no key / a 5-byte key, signed by L's own key but naming the case-swapped spelling / a prefix of its name, the accessory's own identifier and signature reflected, a start with the accessory's own ephemeral key followed by a finish that echoes the sealed part of the start response; unknown state; unknown method; reopen; L's start replayed by X; L's genuine finish split with Expect: 100-continue so that its handler overlaps with later events; L's genuine payload followed by bytes that do not form a TLV8 item; L's genuine finish with a complete failing pair-verify appended in the same TCP segment — L is verified all the same; a finish shorter than an authentication tag on L's own connection, after which a genuine finish without a new start is refused; a finish naming L, signed by X and carrying X's public key as an extra item; a finish that carries only an error item). From the further non-initial state 'X started and was refused once (unknown name)' every history of length 2 (thorough 3) over all symbols. Directly after an accepted start, also every damaged form of L's genuine finish: the signed payload cut to each of its 0…103-byte prefixes, six tails that do not form an item appended inside the sealed payload or after the request body, the body cut by 1, 2, 15, 16, 17 bytes — each must be answered with an error and leave the connection unverified. All against the real transport over TCP; each node is replayed on a fresh system; after every event the response is compared with the reference model (verified ⇔ genuine finish by L directly after an accepted start, computed by the independent controller), and at the end of every history each connection is probed destructively: an unverified one must answer plaintext, refuse protected reads and not serve ciphertext under its own exchange keys; a verified one must serve encrypted requests. The same alphabet (all 38 symbols) is also explored to depth 2 (thorough 3) from two non-initial states: L already verified on its connection, and L verified once and then removed by an administrator through /pairings (its genuine finish must then be refused). Plus interleavings of the real pair-verify / pair-setup handlers of two connections under a cooperative scheduler (scheduling points = every log statement of the library, every mutex Lock in hap and crypto, the arrival of each request; preemption bound 2 quick / 3 thorough; and once more with a scheduling point before every statement of hc's packages and one preemption): a genuine and a forged pair-verify naming the same controller, a pair-verify next to another connection's key exchange — exactly the genuine one ends verified. states = tree nodes, distinct_nontrivial = distinct (event → response class) pairs",
+		Rule:  "every history of length ≤3 (quick) / ≤4 (thorough) over 29 symbols, in thorough also every history of length ≤3 over all 38 symbols, of the pair-verify alphabet on an adversary connection X and a legitimate connection L (start valid / 31 / 33 / 0-byte key / all-zero point; finish genuine, signed by X naming L, unknown name, naming the accessory, sealed under zero / wrong key, 0 and 15 byte payloads, tag flipped, L's captured finish replayed, L's signature over reordered or stale material, naming a stored entity that has no key / a 5-byte key, signed by L's own key but naming the case-swapped spelling / a prefix of its name, the accessory's own identifier and signature reflected, a start with the accessory's own ephemeral key followed by a finish that echoes the sealed part of the start response; unknown state; unknown method; reopen; L's start replayed by X; L's genuine finish split with Expect: 100-continue so that its handler overlaps with later events; L's genuine payload followed by bytes that do not form a TLV8 item; L's genuine finish with a complete failing pair-verify appended in the same TCP segment — L is verified all the same; a finish shorter than an authentication tag on L's own connection, after which a genuine finish without a new start is refused; a finish naming L, signed by X and carrying X's public key as an extra item; a finish that carries only an error item). From the further non-initial state 'X started and was refused once (unknown name)' every history of length 2 (thorough 3) over all symbols. Directly after an accepted start, also every damaged form of L's genuine finish: the signed payload cut to each of its 0…103-byte prefixes, six tails that do not form an item appended inside the sealed payload or after the request body, the body cut by 1, 2, 15, 16, 17 bytes — each must be answered with an error and leave the connection unverified. All against the real transport over TCP; each node is replayed on a fresh system; after every event the response is compared with the reference model (verified ⇔ genuine finish by L directly after an accepted start, computed by the independent controller), and at the end of every history each connection is probed destructively: an unverified one must answer plaintext, refuse protected reads and not serve ciphertext under its own exchange keys; a verified one must serve encrypted requests. The same alphabet (all 38 symbols) is also explored to depth 2 (thorough 3) from two non-initial states: L already verified on its connection, and L verified once and then removed by an administrator through /pairings (its genuine finish must then be refused). Plus interleavings of the real pair-verify / pair-setup handlers of two connections under a cooperative scheduler (scheduling points = every log statement of the library, every mutex Lock in hap and crypto, the arrival of each request; preemption bound 2 quick / 3 thorough; and once more with a scheduling point before every statement of hc's packages and one preemption): a genuine and a forged pair-verify naming the same controller, a pair-verify next to another connection's key exchange — exactly the genuine one ends verified. states = tree nodes, distinct_nontrivial = distinct (event → response class) pairs The adversary is paired with ANOTHER accessory whose store lies next to this one's; it presents a name that is a relative path to its entity file there (names are not paths: refused).",
 		Run:   c03Run1,
 		Replay: func(c *fw.Ctx, raw json.RawMessage) {
 			var pc pschedCase
